@@ -32,11 +32,20 @@
 //                                            (structural dump of the method implementation object's slots)
 //          TRAITS                         -> "I <callback class> <is_dummy<class>::value>" ..., "IEND"
 //          NEEDS <method> ...             -> "N <method> <needs_kernel needs_distance needs_features as 0/1>" ..., "NEND"
-//          RUN id=<n> m=<method> fam=<M|E|U|O> back=<eigen|hand|pre> src=<eigen|hand> order=<str> entry=<range|using>
+//          KTAB <N> <N*N hex doubles, row-major> / DTAB <N> <...>   kernel / distance VALUE TABLES (need not be symmetric, need not
+//                                            come from the data): back=tab answers kernel(a,b) = KTAB[a][b] by a hand-written
+//                                            callback, back=pretab hands the same tables to tapkee's precomputed_*_callback
+//          ADAPT exact=<0|1>              -> "A <class>.<member> n=<calls> bad=<n> [first=<a>,<b> got=<hex> want=<hex>]" ..., "AEND"
+//                                            every adapter class the library ships, called DIRECTLY for all ordered pairs (a,b):
+//                                            precomputed_* on KTAB/DTAB (want = the table entry for the pair AS GIVEN), eigen_* on the
+//                                            data (want = hand-written loops; compared only if exact=1, i.e. dyadic data)
+//          RUN id=<n> m=<method> fam=<M|E|U|O|X|Y> back=<eigen|hand|pre|tab|pretab> src=<eigen|hand> order=<str> entry=<range|using>
 //              d=<int> k=<int> seed=<int> nm=<brute|vptree|covertree> em=<dense|randomized> wd=<s> [off=<shift of
 //              the index sequence, fam U/Y only>] [..]
 // Output:  C <id>                          marker before the call
 //          R <id> OK <rows> <cols> <hex...> | <12 counters role-major K,D,F x kernel,distance,vector,dimension> <obj_as_index>
+//                 <index_as_obj> <foreign: a callback received something that is not an element of [begin,end)>
+//                 <adapter_bad: a precomputed_* adapter answered something else than the table entry for the pair it was called with>
 //          R <id> EXC <type> | <counters> | <message>
 //          T <id>                          watchdog fired (process exits with code 7)
 #include <cmath>
@@ -109,6 +118,12 @@ constexpr bool allowed(int fam, int mask)
     if (fam == FAM_E)
         return false;
 #endif
+#ifdef C13_NO_OBJ
+    // second fallback build: without the object-sequence family (a library that hands something else than the
+    // dereferenced iterator to a callback may not compile with a value type that is not an integer)
+    if (fam == FAM_O)
+        return false;
+#endif
 #if C13_PART == 0
     return mask != 0 && (fam == FAM_U || mask == 7);
 #elif C13_PART == 1
@@ -133,10 +148,22 @@ static const bool g_matrix_form = (C13_PART == 0 || C13_PART == 1);
 // ------------------------------------------------------------------ counters
 static long g_cnt[3][4];
 static long g_obj_as_index;
+static long g_index_as_obj;
+static long g_foreign;
+static long g_adapter_bad;
 static void reset_counters()
 {
     memset(g_cnt, 0, sizeof g_cnt);
     g_obj_as_index = 0;
+    g_index_as_obj = 0;
+    g_foreign = 0;
+    g_adapter_bad = 0;
+}
+static IndexType g_n = 0;                 // number of samples of the current data set
+static std::vector<double> g_ktab, g_dtab; // value tables (row-major g_n x g_n), empty if not given
+static inline bool same_bits(double a, double b)
+{
+    return memcmp(&a, &b, sizeof a) == 0;
 }
 
 // ------------------------------------------------------------------ objects that are not indices
@@ -144,6 +171,15 @@ struct Obj
 {
     long key;        // 1000 + 7 * (position in the data set)
     IndexType decoy; // a wrong but in-range index
+    Obj() : key(-1), decoy(0)
+    {
+    }
+    // the other direction: code that hands a loop counter / position to a callback where the data OBJECT belongs
+    // compiles (as it does when the objects are integers) and is seen: such an Obj is no element of the sequence
+    Obj(IndexType i) : key(-1), decoy(i)
+    {
+        g_index_as_obj++;
+    }
     operator IndexType() const
     {
         g_obj_as_index++;
@@ -154,13 +190,28 @@ struct Obj
 // hand-written callbacks undo the shift: code that uses the dereferenced iterator as an index (instead of
 // iterator - begin) then reads the wrong sample even though the objects are integers
 static IndexType g_index_offset = 0;
+// every callback checks that what it is handed IS an element of the sequence given to tapkee (oracle on every call)
+static inline IndexType in_range(long i)
+{
+    if (i < 0 || i >= (long)g_n)
+    {
+        g_foreign++;
+        return 0;
+    }
+    return (IndexType)i;
+}
 static inline IndexType index_of(IndexType i)
 {
-    return i - g_index_offset;
+    return in_range((long)i - (long)g_index_offset);
 }
 static inline IndexType index_of(const Obj& o)
 {
-    return (IndexType)((o.key - 1000) / 7);
+    if (o.key < 1000 || (o.key - 1000) % 7 != 0)
+    {
+        g_foreign++;
+        return 0;
+    }
+    return in_range((o.key - 1000) / 7);
 }
 
 // ------------------------------------------------------------------ value tables behind the callbacks
@@ -173,7 +224,9 @@ struct Backing
     DenseMatrix KM, DM;
     precomputed_kernel_callback pk;
     precomputed_distance_callback pd;
-    int mode; // 0: tapkee's eigen callbacks, 1: hand-written loops, 2: tapkee's precomputed callbacks
+    int mode; // 0: tapkee's eigen callbacks, 1: hand-written loops, 2: tapkee's precomputed callbacks (tables computed from
+              // the data), 3: hand-written callbacks that look a pair up in the VALUE TABLES g_ktab / g_dtab (arbitrary,
+              // not symmetric), 4: tapkee's precomputed callbacks over matrices holding those same tables
     // hand-written kernel / distance / features: plain sequential loops over the raw data.  On dyadic data
     // (small integers) every product and sum is exact, so these agree BITWISE with the eigen callbacks.
     ScalarType hand_kernel(IndexType a, IndexType b) const
@@ -196,24 +249,55 @@ struct Backing
     Backing(const DenseMatrix& x, int m, bool tables_by_hand)
         : X(x), ek(x), ed(x), ef(x), KM(x.cols(), x.cols()), DM(x.cols(), x.cols()), pk(KM), pd(DM), mode(m)
     {
-        for (IndexType i = 0; i < x.cols(); i++)
-            for (IndexType j = 0; j < x.cols(); j++)
+        const IndexType n = x.cols();
+        for (IndexType i = 0; i < n; i++)
+            for (IndexType j = 0; j < n; j++)
             {
-                KM(i, j) = tables_by_hand ? hand_kernel(i, j) : ek.kernel(i, j);
-                DM(i, j) = tables_by_hand ? hand_distance(i, j) : ed.distance(i, j);
+                if (m >= 3)
+                {
+                    KM(i, j) = g_ktab[(size_t)i * n + j];
+                    DM(i, j) = g_dtab[(size_t)i * n + j];
+                }
+                else
+                {
+                    KM(i, j) = tables_by_hand ? hand_kernel(i, j) : ek.kernel(i, j);
+                    DM(i, j) = tables_by_hand ? hand_distance(i, j) : ed.distance(i, j);
+                }
             }
+    }
+    // the contract of a precomputed adapter, checked on EVERY call the library makes: the answer is the entry of the
+    // supplied matrix for the pair in the order given
+    ScalarType via_adapter(ScalarType got, const DenseMatrix& M, IndexType a, IndexType b) const
+    {
+        if (!same_bits(got, M(a, b)))
+            g_adapter_bad++;
+        return got;
     }
     ScalarType kernel(IndexType a, IndexType b) const
     {
-        return mode == 2 ? pk.kernel(a, b) : mode == 1 ? hand_kernel(a, b) : ek.kernel(a, b);
+        switch (mode)
+        {
+        case 4:
+        case 2: return via_adapter(pk.kernel(a, b), KM, a, b);
+        case 3: return g_ktab[(size_t)a * X.cols() + b];
+        case 1: return hand_kernel(a, b);
+        default: return ek.kernel(a, b);
+        }
     }
     ScalarType distance(IndexType a, IndexType b) const
     {
-        return mode == 2 ? pd.distance(a, b) : mode == 1 ? hand_distance(a, b) : ed.distance(a, b);
+        switch (mode)
+        {
+        case 4:
+        case 2: return via_adapter(pd.distance(a, b), DM, a, b);
+        case 3: return g_dtab[(size_t)a * X.cols() + b];
+        case 1: return hand_distance(a, b);
+        default: return ed.distance(a, b);
+        }
     }
     void vector(IndexType a, DenseVector& v) const
     {
-        if (mode == 1)
+        if (mode == 1 || mode == 3)
         {
             v.resize(X.rows());
             for (IndexType j = 0; j < X.rows(); j++)
@@ -224,7 +308,7 @@ struct Backing
     }
     IndexType dimension() const
     {
-        return mode == 1 ? (IndexType)X.rows() : ef.dimension();
+        return (mode == 1 || mode == 3) ? (IndexType)X.rows() : ef.dimension();
     }
 };
 
@@ -364,6 +448,101 @@ void dump_slots(const KC& k, const DC& d, const FC& f, ParametersSet ps, const s
            (int)(m.end == cidx.end()), (long)m.n_vectors);
 }
 
+// ------------------------------------------------------------------ the adapters, called directly
+struct ProbeStat
+{
+    long n = 0, bad = 0;
+    long fa = -1, fb = -1;
+    double got = 0, want = 0;
+    void see(long a, long b, double g, double w, bool compare = true)
+    {
+        n++;
+        if (compare && !same_bits(g, w))
+        {
+            if (bad == 0)
+            {
+                fa = a;
+                fb = b;
+                got = g;
+                want = w;
+            }
+            bad++;
+        }
+    }
+    void print(const char* what) const
+    {
+        printf("A %s n=%ld bad=%ld", what, n, bad);
+        if (bad)
+            printf(" first=%ld,%ld got=%a want=%a", fa, fb, got, want);
+        printf("\n");
+    }
+};
+
+// every (a, b) in order, both triangles and the diagonal: the adapter must answer with the value supplied FOR THAT PAIR
+static void probe_adapters(const DenseMatrix& X, bool exact)
+{
+    const IndexType n = X.cols();
+    try
+    {
+        if (g_ktab.size() == (size_t)n * n && g_dtab.size() == (size_t)n * n)
+        {
+            DenseMatrix KM(n, n), DM(n, n);
+            for (IndexType i = 0; i < n; i++)
+                for (IndexType j = 0; j < n; j++)
+                {
+                    KM(i, j) = g_ktab[(size_t)i * n + j];
+                    DM(i, j) = g_dtab[(size_t)i * n + j];
+                }
+            precomputed_kernel_callback pk(KM);
+            precomputed_distance_callback pd(DM);
+            ProbeStat sk, sd;
+            for (IndexType a = 0; a < n; a++)
+                for (IndexType b = 0; b < n; b++)
+                {
+                    sk.see(a, b, pk.kernel(a, b), g_ktab[(size_t)a * n + b]);
+                    sd.see(a, b, pd.distance(a, b), g_dtab[(size_t)a * n + b]);
+                }
+            sk.print("precomputed_kernel_callback.kernel");
+            sd.print("precomputed_distance_callback.distance");
+        }
+        Backing hand(X, 1, true);
+        eigen_kernel_callback ek(X);
+        eigen_distance_callback ed(X);
+        eigen_features_callback ef(X);
+        ProbeStat k1, k2, d1, d2, fv, fd;
+        for (IndexType a = 0; a < n; a++)
+            for (IndexType b = 0; b < n; b++)
+            {
+                k1.see(a, b, ek.kernel(a, b), hand.hand_kernel(a, b), exact);
+                k2.see(a, b, ek(a, b), ek.kernel(a, b));
+                d1.see(a, b, ed.distance(a, b), hand.hand_distance(a, b), exact);
+                d2.see(a, b, ed(a, b), ed.distance(a, b));
+            }
+        for (IndexType a = 0; a < n; a++)
+        {
+            DenseVector v;
+            ef.vector(a, v);
+            if (v.size() != X.rows())
+                fv.see(a, -1, (double)v.size(), (double)X.rows());
+            else
+                for (IndexType j = 0; j < X.rows(); j++)
+                    fv.see(a, j, v(j), X(j, a));
+        }
+        fd.see(-1, -1, (double)ef.dimension(), (double)X.rows());
+        k1.print("eigen_kernel_callback.kernel");
+        k2.print("eigen_kernel_callback.operator()");
+        d1.print("eigen_distance_callback.distance");
+        d2.print("eigen_distance_callback.operator()");
+        fv.print("eigen_features_callback.vector");
+        fd.print("eigen_features_callback.dimension");
+    }
+    catch (const std::exception& ex)
+    {
+        printf("A exception %s\n", ex.what());
+    }
+    printf("AEND\n");
+}
+
 // ------------------------------------------------------------------ plumbing
 static volatile long g_current_id = -1;
 static void on_alarm(int)
@@ -409,7 +588,7 @@ static void print_counters()
     for (int r = 0; r < 3; r++)
         for (int f = 0; f < 4; f++)
             printf(" %ld", g_cnt[r][f]);
-    printf(" %ld", g_obj_as_index);
+    printf(" %ld %ld %ld %ld", g_obj_as_index, g_index_as_obj, g_foreign, g_adapter_bad);
 }
 
 static void report_exc(long id, const char* type, const char* msg)
@@ -449,6 +628,9 @@ int main()
             {
                 N = D = 0;
             }
+            g_n = N;
+            g_ktab.clear();
+            g_dtab.clear();
             X.resize(D, N);
             for (int i = 0; i < N; i++)
                 for (int j = 0; j < D; j++)
@@ -457,6 +639,31 @@ int main()
                     ss >> tok;
                     X(j, i) = strtod(tok.c_str(), nullptr);
                 }
+            continue;
+        }
+        if (line.rfind("KTAB", 0) == 0 || line.rfind("DTAB", 0) == 0)
+        {
+            std::vector<double>& tab = line[0] == 'K' ? g_ktab : g_dtab;
+            std::istringstream ss(line.substr(4));
+            long n = 0;
+            ss >> n;
+            tab.clear();
+            if (n == N && n > 0)
+            {
+                tab.resize((size_t)n * n);
+                for (size_t i = 0; i < tab.size(); i++)
+                {
+                    std::string tok;
+                    ss >> tok;
+                    tab[i] = strtod(tok.c_str(), nullptr);
+                }
+            }
+            continue;
+        }
+        if (line.rfind("ADAPT", 0) == 0)
+        {
+            const bool exact = line.find("exact=1") != std::string::npos;
+            probe_adapters(X, exact);
             continue;
         }
         if (line.rfind("SLOTS", 0) == 0)
@@ -608,7 +815,12 @@ int main()
 
         const std::string fam = kv["fam"], order = kv["order"];
         const bool use_container = kv["entry"] == "using";
-        const int mode = kv["back"] == "pre" ? 2 : kv["back"] == "hand" ? 1 : 0;
+        const int mode = kv["back"] == "pretab" ? 4 : kv["back"] == "tab" ? 3 : kv["back"] == "pre" ? 2 : kv["back"] == "hand" ? 1 : 0;
+        if (mode >= 3 && (g_ktab.size() != (size_t)N * N || g_dtab.size() != (size_t)N * N))
+        {
+            printf("C %ld\nR %ld BADCASE\n", id, id);
+            continue;
+        }
         const bool tables_by_hand = kv["src"] == "hand";
         int wd = kv.count("wd") ? atoi(kv["wd"].c_str()) : 20;
         unsigned seed = (unsigned)atol(kv["seed"].c_str());
